@@ -1,3 +1,68 @@
+(** C03 — relative evaluation e@k is exact and position-neutral.
+    Statements only; proofs in proofs/RevalProofs.v and proofs/Balanced.v.
+    PARTIAL: the composition law (e@j)@k = e@(j+k) needs the framing theorem (the value of e
+    does not depend on saved positions below it on the stack), which is not proved; it is
+    decided by the differential check. *)
 From WalModel Require Import Eval.
-Theorem tmp : True. Proof. exact I. Qed.
-Print Assumptions tmp.
+From WalModel.proofs Require Import VcdProofs Balanced NavProofs RevalProofs.
+Local Open Scope Z_scope.
+
+(** otherwise: #f, and e is never evaluated (the state is the one left by the offset expression) *)
+Theorem out_of_range_is_false_without_evaluating : forall ev e o st ov off st1,
+  valid_body e = true ->
+  ev o st = Ok ov st1 -> int_of ov = Some off ->
+  all_in_range (c_traces (st_cont st1)) off = false ->
+  op_reval ev [e; o] st = Ok (VBool false) st1.
+Proof. exact reval_out_of_range. Qed.
+Print Assumptions out_of_range_is_false_without_evaluating.
+
+Theorem in_range_means_every_trace : forall ts off,
+  all_in_range ts off = forallb (fun p => in_range (snd p) off) ts.
+Proof. exact all_in_range_spec. Qed.
+Print Assumptions in_range_means_every_trace.
+
+(** in range: exactly what e yields with every trace positioned at i+k, then the saved
+    positions are popped *)
+Theorem in_range_is_e_at_shifted_position : forall ev e o st ov off st1,
+  valid_body e = true ->
+  ev o st = Ok ov st1 -> int_of ov = Some off ->
+  all_in_range (c_traces (st_cont st1)) off = true ->
+  exists c,
+    shifted st1 off c /\
+    (forall id, alookup id (c_traces c) =
+                option_map (fun t => set_index t (tr_index t + off)) (alookup id (c_traces (st_cont st1)))) /\
+    op_reval ev [e; o] st =
+      match ev e (upd_cont st1 c) with
+      | Ok v st2 =>
+          match cont_restore (st_cont st2) with
+          | Some c' => Ok v (upd_cont st2 c')
+          | None => Er EOther st2
+          end
+      | Er er s => Er er s
+      | Unm w => Unm w
+      | Fuel => Fuel
+      end.
+Proof. exact reval_in_range. Qed.
+Print Assumptions in_range_is_e_at_shifted_position.
+
+(** position neutrality: popping positions saved from c0 puts every trace that is still
+    loaded back at its index in c0 (and removes exactly that stack entry) *)
+Theorem positions_restored : forall c0 ts n rest c',
+  cont_wf c0 ->
+  cont_restore (mkCont ts n (cont_indices c0 :: rest)) = Some c' ->
+  c_stack c' = rest /\ c_ntraces c' = n /\
+  forall k t0 t, alookup k (c_traces c0) = Some t0 -> alookup k ts = Some t ->
+                 alookup k (c_traces c') = Some (set_index t (tr_index t0)).
+Proof. exact restore_puts_back. Qed.
+Print Assumptions positions_restored.
+
+(** and, from T-bal, the operator as a whole leaves the stack of saved positions as it found it,
+    whatever e does (nested @, scans, calls) *)
+Theorem reval_leaves_no_saved_position : forall ev,
+  (forall e, good (ev e)) -> forall args, good (op_reval ev args).
+Proof. exact good_op_reval. Qed.
+Print Assumptions reval_leaves_no_saved_position.
+
+Definition ex_trace_a : trace := mkTrace "a" "f" 1 2 [0;1;2] [0;1;2] None [] [] [] [] [].
+Example wf_nonvacuous : cont_wf (mkCont [("a", ex_trace_a)] 1 []).
+Proof. split; [repeat constructor; intros []|]. intros k t [H|[]]. injection H as <- <-. reflexivity. Qed.
